@@ -70,7 +70,11 @@ impl StreamHandler for TcpProxyHandler {
             );
 
             // Check if this is a UDP over TCP request
-            if destination.addr.contains("udp-over-tcp.arpa") {
+            // Only the reserved name itself and names below it mark a UDP-over-TCP stream; any other
+            // host name is an ordinary destination, even if it contains that text.
+            if destination.addr == "udp-over-tcp.arpa"
+                || destination.addr.ends_with(".udp-over-tcp.arpa")
+            {
                 tracing::debug!("[Proxy] Detected UDP over TCP request");
                 if peer_version >= 2 {
                     tracing::debug!(
